@@ -161,6 +161,9 @@ func (g *gen) strOp() step {
 		}
 		return opStrIncr(g.key(), deltas[g.rnd.Intn(len(deltas))])
 	case 5, 6:
+		if g.rnd.Intn(8) == 0 {
+			return opStrSetG(g.key(), g.gval())
+		}
 		return opStrSet(g.key(), g.val(), g.coin())
 	case 7:
 		return opStrSetExpires(g.key(), g.val(), g.ttl())
@@ -268,6 +271,9 @@ func (g *gen) listOp() step {
 	case 10:
 		return opListPopBackPushFront(g.key(), g.key())
 	case 11, 12, 13:
+		if g.rnd.Intn(10) == 0 {
+			return opListPushG(g.key(), g.gval(), g.coin())
+		}
 		return opListPush(g.key(), g.elem(), false, g.coin())
 	case 14, 15:
 		return opListPush(g.key(), g.elem(), true, g.coin())
@@ -283,6 +289,9 @@ func (g *gen) listOp() step {
 func (g *gen) setOp() step {
 	switch g.rnd.Intn(18) {
 	case 0, 1, 2:
+		if g.rnd.Intn(10) == 0 {
+			return opSetAddG(g.key(), []gval{g.gval(), g.gval()})
+		}
 		return opSetAdd(g.key(), g.elems(3), g.coin())
 	case 3, 4:
 		return opSetDelete(g.key(), g.elems(3))
@@ -341,6 +350,9 @@ func (g *gen) hashOp() step {
 	case 10:
 		return opHashScan(g.key(), g.rnd.Intn(5), g.pat(), g.small())
 	case 11, 12, 13:
+		if g.rnd.Intn(10) == 0 {
+			return opHashSetG(g.key(), g.field(), g.gval())
+		}
 		return opHashSet(g.key(), g.field(), g.val(), g.coin())
 	case 14:
 		return opHashSetMany(g.key(), g.pairs(3, g.field, g.val))
